@@ -356,8 +356,15 @@ inductive LTok where
   | rp
 deriving DecidableEq, Repr, Inhabited
 
-def atomOfTok : LTok → Option LarkTree
-  | .name s => some (.tree ['v','a','r'] [.tree ['n','a','m','e'] [.token ['N','A','M','E'] s]])
+/-- terminal name of a name token: `NAME`, or the own terminal of a soft keyword alternative of the rule `name`
+    (`match`, `case`: generated `softNameWords`) -/
+def nameKind (soft : List (Str × Str)) (s : Str) : Str :=
+  match soft.find? (fun p => p.1 == s) with
+  | some p => p.2
+  | none => ['N','A','M','E']
+
+def atomOfTok (soft : List (Str × Str)) : LTok → Option LarkTree
+  | .name s => some (.tree ['v','a','r'] [.tree ['n','a','m','e'] [.token (nameKind soft s) s]])
   | .num k s => some (.tree ['n','u','m','b','e','r'] [.token k s])
   | .str s => some (.tree ['s','t','r','i','n','g'] [.token ['S','T','R','I','N','G'] s])
   | .const s =>
@@ -368,21 +375,21 @@ def atomOfTok : LTok → Option LarkTree
   | _ => none
 
 /-- `Prec` tokens and the table of atom subtrees (atom `i` = the `i`-th atom of the input) -/
-def encode : List LTok → Nat → Option (List Prec.Tok × List LarkTree)
+def encode (soft : List (Str × Str)) : List LTok → Nat → Option (List Prec.Tok × List LarkTree)
   | [], _ => some ([], [])
-  | .lp :: rest, i => (encode rest i).map fun (ts, as) => (.lp :: ts, as)
-  | .rp :: rest, i => (encode rest i).map fun (ts, as) => (.rp :: ts, as)
+  | .lp :: rest, i => (encode soft rest i).map fun (ts, as) => (.lp :: ts, as)
+  | .rp :: rest, i => (encode soft rest i).map fun (ts, as) => (.rp :: ts, as)
   | .op s :: rest, i =>
     match opCode s with
-    | some o => (encode rest i).map fun (ts, as) => (.op o :: ts, as)
+    | some o => (encode soft rest i).map fun (ts, as) => (.op o :: ts, as)
     | none => none
   | t :: rest, i =>
-    match atomOfTok t with
-    | some a => (encode rest (i + 1)).map fun (ts, as) => (.atom i :: ts, a :: as)
+    match atomOfTok soft t with
+    | some a => (encode soft rest (i + 1)).map fun (ts, as) => (.atom i :: ts, a :: as)
     | none => none
 
-def rdParse (ladder : List Rule) (compOps : List CompOp) (toks : List LTok) : Option LarkTree :=
-  match encode toks 0 with
+def rdParse (ladder : List Rule) (compOps : List CompOp) (soft : List (Str × Str)) (toks : List LTok) : Option LarkTree :=
+  match encode soft toks 0 with
   | some (ts, atoms) => rdParseP ⟨ladder, compOps, fun i => (atoms[i]?).getD .empty⟩ ts
   | none => none
 
@@ -453,9 +460,10 @@ def startsTest (a : Str) : Bool :=
     (states: see `contextualize`) -/
 def startsExpression (a : Str) : Bool := a = ['e','l','s','e'] || a = [':']
 
-/-- `operand`: an operand is expected next; `notOk`: an inversion (`not …`) may start here; `lamOk`: a whole `expression`
+/- `operand`: an operand is expected next; `notOk`: an inversion (`not …`) may start here; `lamOk`: a whole `expression`
     (hence a `lambda`) may start here — at the beginning, after `(`, `else` and the `:` of a lambda. `if` / `else` are names
     where an operand is expected; `lambda` is a name where no `expression` may start. -/
+mutual
 def contextualize : Bool → Bool → Bool → List LTok → List LTok
   | _, _, _, [] => []
   | true, notOk, lamOk, .op w :: rest =>
@@ -464,7 +472,7 @@ def contextualize : Bool → Bool → Bool → List LTok → List LTok
     else if w = ['o','r'] ∨ w = ['a','n','d'] ∨ w = ['i','n'] ∨ w = ['i','s'] ∨ w = ['i','f'] ∨ w = ['e','l','s','e'] then
       .name w :: contextualize false false false rest
     else if w = ['l','a','m','b','d','a'] then
-      if lamOk then .op w :: contextualize true false false rest else .name w :: contextualize false false false rest
+      if lamOk then .op w :: lambdaParams rest else .name w :: contextualize false false false rest
     else if w = [':'] then .op w :: contextualize true true true rest    -- `lambda:` — an expression starts
     else .op w :: contextualize true false false rest
   | true, _, _, .lp :: rest => .lp :: contextualize true true true rest
@@ -476,7 +484,35 @@ def contextualize : Bool → Bool → Bool → List LTok → List LTok
   | false, _, _, .op a :: rest => .op a :: contextualize true (startsTest a) (startsExpression a) rest
   | false, _, _, .lp :: rest => .lp :: contextualize true true true rest
   | false, _, _, t :: rest => t :: contextualize false false false rest
+/-- between `lambda` and its `:` only NAME, `,` and `:` are acceptable: every word there is a name, the constants
+    `True` / `False` / `None` and the operator words included -/
+def lambdaParams : List LTok → List LTok
+  | [] => []
+  | .op w :: rest =>
+    if w = [':'] then .op w :: contextualize true true true rest
+    else if w = [','] then .op w :: lambdaParams rest
+    else if w.all isIdChar && !w.isEmpty then .name w :: lambdaParams rest
+    else .op w :: lambdaParams rest
+  | .const w :: rest => .name w :: lambdaParams rest
+  | t :: rest => t :: lambdaParams rest
+end
 
-def lex (s : Str) : Option (List LTok) := (lexRaw (s.length + 1) s).map (contextualize true true true)
+/-- the word a raw token spells, if any -/
+def LTok.word? : LTok → Option Str
+  | .name w => some w
+  | .op w => some w
+  | .const w => some w
+  | _ => none
+
+/-- `startWords` (generated `statementStartWords`): at the start of a statement lark's parser accepts the keyword terminals
+    that open a statement (`if`, `while`, `return`, …) and the contextual lexer then prefers them to NAME; a text beginning with
+    one of them is a (possibly ill-formed) statement of another kind, not an expression statement. Everywhere else the
+    parser state decides as `contextualize` describes. -/
+def lex (startWords : List Str) (s : Str) : Option (List LTok) :=
+  match lexRaw (s.length + 1) s with
+  | some raw =>
+    if (raw.head?.bind LTok.word?).any (fun w => startWords.contains w) then none
+    else some (contextualize true true true raw)
+  | none => none
 
 end Tranp.Ladder
